@@ -217,8 +217,8 @@ def g_trnorm(args, kw):
     T = args[0]
     if not (isinstance(T, np.ndarray) and fin(T) and T.shape in ((3, 3), (4, 4))):
         return False
-    if T.shape == (4, 4) and np.any(T[3, :] != np.array([0, 0, 0, 1])):
-        return False
+    if T.shape == (4, 4) and np.max(np.abs(T[3, :] - np.array([0, 0, 0, 1]))) > 1e-2:
+        return False         # (a nearly valid last row is part of "nearly valid": the result carries [0 0 0 1])
     return ref.dist_to_SO(T[:3, :3]) <= 1e-2
 
 
@@ -580,7 +580,7 @@ def base_case(rng):
     elif name == 'q2r':
         args = [gen.unit_quat(rng).tolist()]
     elif name == 'r2q':
-        args = [gen.so3(rng)]
+        args = [gen.so3(rng)] if rng.random() < 0.7 else [gen.exact_so3(rng, ['float32', 'float16', 'int8', 'int64'][rng.integers(4)])]
     elif name == 'unit':
         args = [(gen.unit_quat(rng) * gen.logu(rng, 1e-6, 1e6)).tolist()]
     elif name == 'slerp':
@@ -606,6 +606,8 @@ def base_case(rng):
         T = gen.se3(rng) if rng.random() < 0.5 else gen.so3(rng)
         T = T.copy()
         T[:3, :3] += rng.normal(size=(3, 3)) * gen.logu(rng, 1e-15, 1e-3)
+        if T.shape == (4, 4) and rng.random() < 0.4:
+            T[3, :] += rng.normal(size=4) * gen.logu(rng, 1e-15, 1e-3)       # noise on the last row as well: the result has [0 0 0 1]
         args = [T]
     elif name == 'trinv':
         args = [gen.se3(rng)]
